@@ -121,6 +121,19 @@ def judge_trusted(case, impl, model):
                                        errs=("TypeError", "ValueError", "InvalidStructureErr")))
         if m_reg:
             msgs.append(m_reg)
+    # class trees with simple mappers: the regular path as the model describes it (Spec/TrustedSafe.deserializeMapped:
+    # every class-level object read through its class's own mapper), where no named deviation of the real regular path
+    # applies (an enclosing TO_CAMELCASE / TO_LOWERCASE reaching nested classes, chained parent mappers, field-name fallback)
+    mapped_scope = (not mapper_free and in_scope and not offpath and model.get("simpleMappers") and not model.get("cascade")
+                    and model.get("tsafe")       # (untrV follows the shapes of the proved region: no Map / Tuple of classes)
+                    and not model.get("baseChain") and "regularMapped" in model
+                    and not _uses_unmapped_names(cls, case["doc"], case.get("mapperSpec") or {})
+                    and _extras_quiet(cls, case["doc"], case.get("mapperSpec") or {}, impl.get("opts_actual") or {}))
+    if mapped_scope and not _has_set_of_struct(cls):
+        m_reg = _loose_err(SD.res_diff("regular deserialize (with mappers)", model["regularMapped"], reg,
+                                       errs=("TypeError", "ValueError", "InvalidStructureErr")))
+        if m_reg:
+            msgs.append(m_reg)
     m_tru = None
     eligible = model.get("verdict") in ("flat", "nested")
     set_of_struct = _has_set_of_struct(cls)   # CPython dedups by hash (= str(instance)), the model by ==  (C11)
@@ -189,7 +202,8 @@ def judge_trusted(case, impl, model):
                     tag_list.append("mapper:cascade")
                 if not mapper_free and _uses_unmapped_names(cls, case["doc"], case.get("mapperSpec") or {}):
                     tag_list.append("mapper:fallback")
-                in_region = bool(mapper_free and model.get("tsafe") and model.get("plain"))
+                in_region = bool((mapper_free and model.get("tsafe") and model.get("plain"))
+                                 or (mapped_scope and model.get("tsafe") and model.get("plainMapped")))
                 explained = m_tru is None and (m_reg is None)
                 key = attribute(what, in_region, explained, tag_list)
                 fails.append((key, f"eligible class ({v}), document accepted by the regular path, but {what}: {detail}; "
@@ -200,6 +214,10 @@ def judge_trusted(case, impl, model):
             if not ("ok" in model.get("trusted", {}) and model.get("eqv") is True
                     and json.dumps(model.get("serX")) == json.dumps(model.get("serY"))):
                 msgs.append("model violates its own theorem inside the proved region")
+        if (not mapper_free and model.get("simpleMappers") and model.get("tsafe") and model.get("plainMapped")
+                and eligible and "ok" in model.get("regularMapped", {})):
+            if not ("ok" in model.get("trusted", {}) and model.get("eqvMapped") is True and model.get("serSameMapped") is True):
+                msgs.append("model violates trusted_mapper_equiv_partial inside the proved region")
     return ("; ".join(msgs)[:1500] if msgs else None), fails
 
 
@@ -244,6 +262,34 @@ def _uses_unmapped_names(d, doc, table):
     if k == "anyOf":
         return any(_uses_unmapped_names(o, doc, table) for o in d["fields"])
     return False
+
+
+def _extras_quiet(d, doc, table, opts):
+    """no class-level object of the document has a key the regular path treats as undeclared: with mappers it looks at
+    the ORIGINAL keys (a renamed field's key is kept as an attribute / refused as an unexpected argument - part of
+    finding dropped:undeclared-keys), and a class with TO_CAMELCASE / TO_LOWERCASE switches keep_undefined off"""
+    if not isinstance(d, dict) or not isinstance(doc, dict):
+        return True
+    k = d.get("k")
+    if k == "struct" and "m" in doc and not d.get("inline"):
+        m = table.get(d["name"])
+        fd = dict((n, f) for n, f in d["fields"])
+        active = bool(opts.get("keepUndefined", True)) and (bool(d.get("addl", True)) or not opts.get("ignoreInvalidAddl", True))
+        keys = {S.map_key(m, n): n for n in fd}
+        for kk, v in doc["m"]:
+            if active and kk not in fd:
+                return False
+            sub = fd.get(keys.get(kk, kk))
+            if sub is not None and not _extras_quiet(sub, v, table, opts):
+                return False
+        return True
+    if k in ("seqOf", "setOf", "tupleOf") and "l" in doc:
+        return all(_extras_quiet(d["item"], x, table, opts) for x in doc["l"])
+    if k == "mapOf" and "m" in doc:
+        return all(_extras_quiet(d["val"], v, table, opts) for _, v in doc["m"])
+    if k == "anyOf":
+        return all(_extras_quiet(o, doc, table, opts) for o in d["fields"])
+    return True
 
 
 def _loose_err(msg):
@@ -358,6 +404,33 @@ def judge_fast(case, impl, model):
     return ("; ".join(msgs)[:1500] if msgs else None), fails
 
 
+def judge_firstuse(case, impl, model):
+    """order of first use: the first instance of a fresh FastSerializable class comes from a shortcut path"""
+    if "path_err" in impl or "path_err2" in impl or "x" not in impl:
+        return None, []
+    path = case["path"]
+    first, warm = impl.get("docs_first") or [], impl.get("docs_warm") or []
+    # the trusted constructor installs the serializer once per KEYWORD: an instance made from no values leaves its
+    # class without one (finding first-use-order:no-values; the model has it for the top instance only)
+    nv_nested = any(e.get("nv") and e.get("err") == "NotImplementedError" for e in first[1:])
+    if nv_nested and "err" in (impl.get("fast") or {}):
+        impl = {k: v for k, v in impl.items() if k not in ("fast", "regular")}
+    if impl.get("no_values") and (impl.get("fast") or {}).get("err") == "NotImplementedError":
+        impl = {k: v for k, v in impl.items() if k != "regular"}      # reported below as first-use-order:no-values
+    msgs, fails = judge_fast(case, impl, model)
+    strip = lambda es: [{k: v for k, v in e.items() if k != "nv"} for e in es]
+    if strip(first) != strip(warm):
+        i = next((k for k, (u, v) in enumerate(zip(strip(first), strip(warm))) if u != v), min(len(first), len(warm)))
+        u = first[i] if i < len(first) else None
+        v = warm[i] if i < len(warm) else None
+        no_values = any(e.get("nv") and e.get("err") == "NotImplementedError" for e in first)
+        key = "first-use-order:" + ("no-values" if no_values else path + (":nested" if i else ""))
+        fails.append((key, f"a fresh FastSerializable class tree whose first instance is made by path '{path}': serialize() of "
+                      f"instance #{i} gives {json.dumps(u)[:200]}, but {json.dumps(v)[:200]} when every class was instantiated "
+                      f"by the validating constructor before; instance={json.dumps(impl.get('x'))[:200]}"))
+    return msgs, fails
+
+
 def judge_enumvalue(case, impl, model):
     """Enum fields by name / by value over enum classes of every kind: the statement on the real code only"""
     fails = []
@@ -415,4 +488,4 @@ def judge(case, impl, model):
     if "abstraction_mismatch" in impl:
         return "dump(build(decl)) != decl: " + json.dumps(impl["abstraction_mismatch"])[:600], []
     return {"trusted": judge_trusted, "construct": judge_construct, "fast": judge_fast,
-            "enumvalue": judge_enumvalue}[case["mode"]](case, impl, model)
+            "enumvalue": judge_enumvalue, "firstuse": judge_firstuse}[case["mode"]](case, impl, model)
